@@ -299,6 +299,14 @@ func c08R2(c *Ctx) {
 	if n == 0 {
 		c.undecided("pipelineRecvHashAck/sends", "no send on the match channel found")
 	}
+	// an ack is awaited only while one is owed: with nothing to compare (size 0, e.g. an empty source)
+	// no hash is sent, so the first read must be behind a size/offset test
+	for _, ci := range callsIn(af, idIs(tT+"recvHashAck")) {
+		owed := factCmp(factsAt(ci.Block()), token.NEQ, anyValue, isVar("size")) || factCmp(factsAt(ci.Block()), token.GTR, isVar("size"), anyValue) ||
+			factCmp(factsAt(ci.Block()), token.LSS, anyValue, isVar("size"))
+		c.check(owed, "pipelineRecvHashAck/wait-only-when-owed", c.ipos(ci), "an ack is awaited only when at least one hash is owed (size != 0 / offset != size)",
+			"the sender waits for a hash ack even when there is nothing to compare (empty source over an existing file): no hash is sent, no ack comes, the fault-free transfer times out")
+	}
 }
 
 func c08R3(c *Ctx) {
